@@ -38,16 +38,68 @@ def _strip_comments(text):
     return "".join(out)
 
 
-def scan_forbidden():
+def cone(prop, order=False):
+    """The .v files Props/<prop>.v depends on (transitively), from coqdep; order=True: in
+    dependency order (dependencies first)."""
+    start = os.path.join("theories", "Props", prop + ".v")
+    deps = {}
+    seen, todo = set(), [start]
+    while todo:
+        f = todo.pop()
+        if f in seen or not os.path.exists(os.path.join(env.COQ, f)):
+            continue
+        seen.add(f)
+        p = subprocess.run(["coqdep", "-Q", "theories", "LV", "-Q", "gen", "LVGen", f], cwd=env.COQ,
+                           capture_output=True, text=True)
+        deps[f] = []
+        for line in p.stdout.splitlines():
+            if ":" not in line or not line.split(":")[0].split()[0].endswith(".vo"):
+                continue
+            for dep in line.split(":", 1)[1].split():
+                if dep.endswith(".vo") and (dep.startswith("theories/") or dep.startswith("gen/")):
+                    todo.append(dep[:-1])
+                    deps[f].append(dep[:-1])
+    if not order:
+        return sorted(seen)
+    out, done = [], set()
+
+    def visit(f):
+        if f in done or f not in deps:
+            return
+        done.add(f)
+        for d in deps[f]:
+            visit(d)
+        out.append(f)
+    visit(start)
+    return out
+
+
+def build_cone(prop, timeout=1500):
+    """Fallback when `make` fails for reasons outside the property's own files (e.g. coqdep on an
+    unrelated broken file): compile the dependency cone directly, in order."""
+    log = ""
+    for f in cone(prop, order=True):
+        vo = os.path.join(env.COQ, f[:-2] + ".vo")
+        p = subprocess.run(["timeout", str(timeout)] + COQC + [f], cwd=env.COQ, capture_output=True, text=True)
+        if p.returncode != 0:
+            return p.returncode, log + (p.stderr or p.stdout)
+        log += "coqc %s ok\n" % f
+    return 0, log
+
+
+def scan_forbidden(files=None):
+    """Forbidden constructs in the given .v files (relative to coq/), default: the whole development."""
     hits = []
-    for root in (os.path.join(env.COQ, "theories"), os.path.join(env.COQ, "gen")):
-        for dp, _, fns in os.walk(root):
-            for fn in fns:
-                if fn.endswith(".v"):
-                    p = os.path.join(dp, fn)
-                    for n, line in enumerate(_strip_comments(open(p).read()).splitlines(), 1):
-                        if FORBIDDEN.search(line):
-                            hits.append("%s:%d: %s" % (os.path.relpath(p, env.VERIF), n, line.strip()))
+    if files is None:
+        files = []
+        for root in ("theories", "gen"):
+            for dp, _, fns in os.walk(os.path.join(env.COQ, root)):
+                files += [os.path.relpath(os.path.join(dp, fn), env.COQ) for fn in fns if fn.endswith(".v")]
+    for f in sorted(files):
+        p = os.path.join(env.COQ, f)
+        for n, line in enumerate(_strip_comments(open(p).read()).splitlines(), 1):
+            if FORBIDDEN.search(line):
+                hits.append("%s:%d: %s" % (os.path.relpath(p, env.VERIF), n, line.strip()))
     return hits
 
 
@@ -91,11 +143,20 @@ def check_property(prop, gen=()):
     text = _strip_comments(open(src).read())
     names = re.findall(r"^\s*(?:Theorem|Corollary)\s+(\w+)", text, re.M)
     res["obligations"] = len(names)
-    hits = scan_forbidden()
+    files = cone(prop)
+    res["cone"] = files
+    hits = scan_forbidden(files)      # the property is judged on the files its theorems depend on
     if hits:
         res["broken"].append("forbidden construct: " + "; ".join(hits[:5]))
         return res
     rc, log = make("theories/Props/%s.vo" % prop)
+    if rc != 0:
+        with lock():
+            rc2, log2 = build_cone(prop)
+        if rc2 == 0:
+            rc, log = 0, log[-800:] + "\n[make failed outside the cone; cone compiled directly]\n" + log2
+        else:
+            log = log2
     res["log"] = log[-3000:]
     if rc != 0:
         m = re.search(r'File "([^"]+)", line (\d+)', log)
